@@ -24,7 +24,7 @@ func init() {
 	gometrics.NewMeter().Stop()
 
 	Register(&Prop{
-		ID: "C20", Bubble: true, Run: runC20, QuickRuns: 1200,
+		ID: "C20", Bubble: true, ArmLockProbes: true, Run: runC20, QuickRuns: 1200,
 		ExpectedProbes: []string{"start_or_stop_while_live", "gauge_polled", "decisions_overlapped"},
 		Rule: "one run = (a) a recording metric registry under a strategy (simple / precise / lookup / predicate) and a limit implementation (AIMD, Vegas, Gradient, Gradient2, Fixed, Settable, windowed) driven by a seeded history: every in-flight sample equals the ledger count at the admission decision, limit / partition gauges equal the enforced values, every OnSample emits exactly one rtt, one in-flight and (iff drop) one dropped sample; or (b) the real go-metrics or datadog registry inside the bubble (fresh go-metrics registry; real statsd client over an in-memory writer): seeded sequences of Register*, AddSample, Start, Stop (repeated, out of order), sleeps of k x pollFrequency so that Stop lands on a tick, under a seeded schedule that includes the poller goroutine; " +
 			"oracle (b): each sample reaches the backend metric of the right kind under prefix+id; gauge suppliers are called only between Start and the return of Stop, at most once per tick and gauge (two Starts must not double the rate) and at least once per two ticks; Start / Stop return; nothing polls after the final Stop; " +
@@ -187,6 +187,7 @@ func runC20Recording(r *Run) {
 	}
 	// limits: every processed sample emits rtt + in-flight once, dropped iff drop
 	cfg := drawAlgoCfg(t, []string{"aimd", "vegas", "gradient", "gradient2", "fixed", "settable"}, []string{"", "", "windowed"})
+	cfg.EmptyName = t.Chance(20, "empty-limit-name")
 	a, err := buildAlgo(cfg, true)
 	reg2 := a.Reg
 	if err != nil {
@@ -199,13 +200,28 @@ func runC20Recording(r *Run) {
 	m := 5 + t.Intn(60, "samples")
 	drops := 0
 	outer := a.Cfg.Name
+	if cfg.EmptyName {
+		outer = ""
+	}
 	if cfg.Wrap == "windowed" {
 		outer = "windowed"
 	}
-	rttS := reg2.Stream("timing", core.PrefixMetricWithName(core.MetricRTT, outer))
-	infS := reg2.Stream("distribution", core.PrefixMetricWithName(core.MetricInFlight, outer))
-	drpS := reg2.Stream("count", core.PrefixMetricWithName(core.MetricDropped, outer))
-	limG := reg2.Gauge(core.PrefixMetricWithName(core.MetricLimit, outer))
+	// documented naming, written out here (not taken from the library's helper): "<name>.<metric>", and a limit
+	// without a name reports under "default."
+	mname := func(metric string) string {
+		n := outer
+		if n == "" {
+			n = "default"
+		}
+		if strings.HasSuffix(n, ".") {
+			return n + metric
+		}
+		return n + "." + metric
+	}
+	rttS := reg2.Stream("timing", mname(core.MetricRTT))
+	infS := reg2.Stream("distribution", mname(core.MetricInFlight))
+	drpS := reg2.Stream("count", mname(core.MetricDropped))
+	limG := reg2.Gauge(mname(core.MetricLimit))
 	if rttS == nil || infS == nil || drpS == nil || limG == nil {
 		r.Fail("sample-metric-missing", outer, "limit %s did not register rtt/inflight/dropped/limit metrics under its name", outer)
 		return
